@@ -269,8 +269,9 @@ func TestVerifC06(t *testing.T) {
 	rec := kit.For(t, "C06")
 	rec.Exhaustive(true)
 
-	// Regression table: one failing store of two at every point, all modes.
-	{
+	// Regression table: a fixed two-store scenario under the complete fault space, all modes, all three
+	// abort representations. VERIF_N_c06fixed=0 skips it (used only for sensitivity experiments).
+	if kit.Scale("c06fixed", 1, 1) > 0 {
 		r1, r2 := newRawChunk([]smpl{{1000, 1}, {2000, 2}}), newRawChunk([]smpl{{3000, 1}})
 		lA, lB := labels.FromStrings("a", "1"), labels.FromStrings("a", "2")
 		sc := c03Fixed(nil, nil,
